@@ -522,6 +522,7 @@ def swapExactIn (s : St) (sender : Addr) (pool : Nat) (denomIn : Denom) (amount 
   let bfq := denomIn = p.base
   let fee := if feeEnabled then p.feeRate else Dec.zero
   let (s1, o) ← computeSwap true s pool denomIn denomOut amount fee (multipliedPriceLimit bfq) true
+  if o.amountIn ≠ amount then Res.err "insufficient-liquidity"   -- stopped at the price limit: no partial fill (fix 6584aed)
   if !(o.amountOut > 0) then Res.err "unexpected-calc-amount"
   let s2 ← updatePoolForSwap s1 p sender denomIn o.amountIn denomOut o.amountOut o
   return (s2, o.amountOut)
@@ -532,6 +533,7 @@ def swapExactOut (s : St) (sender : Addr) (pool : Nat) (denomOut : Denom) (amoun
   let bfq := denomIn = p.base
   let fee := if feeEnabled then p.feeRate else Dec.zero
   let (s1, o) ← computeSwap false s pool denomIn denomOut amount fee (multipliedPriceLimit bfq) true
+  if o.amountOut ≠ amount then Res.err "insufficient-liquidity"  -- stopped at the price limit: no partial fill (fix 6584aed)
   if !(o.amountIn > 0) then Res.err "unexpected-calc-amount"
   let s2 ← updatePoolForSwap s1 p sender denomIn o.amountIn denomOut o.amountOut o
   return (s2, o.amountIn)
@@ -541,12 +543,14 @@ def quoteExactIn (s : St) (pool : Nat) (denomIn : Denom) (amount : Int) (denomOu
   let p ← match getPool s pool with | some p => Res.ok p | none => Res.err "pool-not-found"
   let fee := if feeEnabled then p.feeRate else Dec.zero
   let (_, o) ← computeSwap true s pool denomIn denomOut amount fee Dec.zero false
+  if o.amountIn ≠ amount then Res.err "insufficient-liquidity"
   return o.amountOut
 
 def quoteExactOut (s : St) (pool : Nat) (denomOut : Denom) (amount : Int) (denomIn : Denom) (feeEnabled : Bool) : Res Int := do
   let p ← match getPool s pool with | some p => Res.ok p | none => Res.err "pool-not-found"
   let fee := if feeEnabled then p.feeRate else Dec.zero
   let (_, o) ← computeSwap false s pool denomIn denomOut amount fee Dec.zero false
+  if o.amountOut ≠ amount then Res.err "insufficient-liquidity"
   return o.amountIn
 
 end Sunrise.CL
